@@ -57,7 +57,16 @@ type genFile struct {
 	goPackage string
 	services  []genService
 	comments  bool
-	localMsgs bool // the RPCs use messages Req / Res defined in this file (in its own Go package)
+	localMsgs bool   // the RPCs use messages Req / Res defined in this file (in its own Go package)
+	comment   string // if set, the leading comment of every method (with comments = true)
+	param     string // the plugin parameter (protoc --connect-go_opt=…)
+}
+
+func (f genFile) commentFor(method string) string {
+	if f.comment != "" {
+		return f.comment
+	}
+	return " " + method + " does things.\n A second line with */ and // inside.\n"
 }
 
 func (f genFile) request() *pluginpb.CodeGeneratorRequest {
@@ -92,7 +101,7 @@ func (f genFile) request() *pluginpb.CodeGeneratorRequest {
 			}
 			sd.Method = append(sd.Method, md)
 			if f.comments {
-				loc.Location = append(loc.Location, &descriptorpb.SourceCodeInfo_Location{Path: []int32{6, int32(si), 2, int32(mi)}, Span: []int32{1, 1, 1}, LeadingComments: proto.String(" " + m.name + " does things.\n A second line with */ and // inside.\n")})
+				loc.Location = append(loc.Location, &descriptorpb.SourceCodeInfo_Location{Path: []int32{6, int32(si), 2, int32(mi)}, Span: []int32{1, 1, 1}, LeadingComments: proto.String(f.commentFor(m.name))})
 			}
 		}
 		fd.Service = append(fd.Service, sd)
@@ -103,7 +112,11 @@ func (f genFile) request() *pluginpb.CodeGeneratorRequest {
 	if f.localMsgs {
 		fd.MessageType = []*descriptorpb.DescriptorProto{{Name: proto.String("Req")}, {Name: proto.String("Res")}}
 	}
-	return &pluginpb.CodeGeneratorRequest{FileToGenerate: []string{"dir/probe.proto"}, ProtoFile: []*descriptorpb.FileDescriptorProto{empty, fd}}
+	req := &pluginpb.CodeGeneratorRequest{FileToGenerate: []string{"dir/probe.proto"}, ProtoFile: []*descriptorpb.FileDescriptorProto{empty, fd}}
+	if f.param != "" {
+		req.Parameter = proto.String(f.param)
+	}
+	return req
 }
 
 func runPlugin(req *pluginpb.CodeGeneratorRequest) (*pluginpb.CodeGeneratorResponse, error) {
@@ -279,6 +292,9 @@ func goCamelCase(s string) string {
 
 func genCheckFile(c *Ctx, f genFile, outDir string, idx int) {
 	desc := fmt.Sprintf("file pkg=%q go_package=%q services=%v", f.pkg, f.goPackage, f.services)
+	if f.param != "" {
+		desc += " parameter " + f.param
+	}
 	res, err := runPlugin(f.request())
 	if err != nil {
 		c.Fail("gen-plugin-failed", desc, err.Error(), "the generator failed on a valid descriptor")
@@ -299,15 +315,19 @@ func genCheckFile(c *Ctx, f genFile, outDir string, idx int) {
 		}
 		return
 	}
-	if len(res.File) != 1 {
-		c.Fail("gen-file-count", desc, fmt.Sprint(len(res.File)), "expected exactly one generated file")
+	wantFiles := 1
+	if strings.Contains(f.param, "annotate_code=true") {
+		wantFiles = 2 // the generated file and its .meta companion
+	}
+	if len(res.File) != wantFiles || !strings.HasSuffix(res.File[0].GetName(), ".connect.go") {
+		c.Fail("gen-file-count", desc, fmt.Sprint(len(res.File)), fmt.Sprintf("expected %d generated file(s), the Go file first", wantFiles))
 		return
 	}
 	src := res.File[0].GetContent()
 	// determinism
 	for i := 0; i < 3; i++ {
 		res2, err := runPlugin(f.request())
-		if err != nil || len(res2.File) != 1 || res2.File[0].GetContent() != src {
+		if err != nil || len(res2.File) != wantFiles || res2.File[0].GetContent() != src {
 			c.Fail("gen-nondeterministic", desc, "", "the generator's output differs between runs on the same input")
 			break
 		}
@@ -404,6 +424,13 @@ func streamGen(c *Ctx) {
 		files = append(files, genFile{pkg: "alias." + last, goPackage: "gen.test/msgs/" + last, localMsgs: true, services: []genService{
 			{name: "Gateway", methods: []genMethod{{name: "Do"}, {name: "Watch", ss: true}, {name: "Push", cs: true}}}}})
 	}
+	// plugin parameters protogen understands: annotated output for service names of every shape
+	// (the annotation names a symbol of the generated file: it has to exist) - round 9, C17-mk
+	for i, svc := range []string{"PingService", "ping_service", "pingService", "Ping_Service2"} {
+		files = append(files, genFile{pkg: "ann.v1", goPackage: fmt.Sprintf("example.com/gen/ann/v%d;annv%d", i, i), param: "annotate_code=true", comments: true,
+			services: []genService{{name: svc, methods: []genMethod{{name: "Do"}, {name: "watch_all", ss: true}}}}})
+	}
+	files = append(files, genFile{pkg: "ann.v9", goPackage: "example.com/gen/ann/v9;annv9", param: "paths=source_relative", services: []genService{{name: "ping_service", methods: []genMethod{{name: "Do"}}}}})
 	// the service whose generated client the type-check step also RUNS (genRunProbe)
 	files = append(files, genFile{pkg: "probe.v1", goPackage: "example.com/gen/probe/v1;probev1", services: []genService{{name: "Probe", methods: []genMethod{{name: "Do"}}}}})
 	// long names: package, service and method names have no length limit; the synthesized doc
@@ -448,8 +475,78 @@ func streamGen(c *Ctx) {
 	}
 	genMultiFileProbe(c)
 	genVersionedPackagesProbe(c)
+	genCollisionProbes(c)
 	typecheckGenerated(c, outDir)
 	checkedInOutput(c)
+}
+
+// genCollisionProbes (F33): valid Protobuf files on which the generator's naming scheme collides
+// with itself - an import alias with a constructor parameter, a service's client struct with a
+// parameter, two services' derived identifiers, two methods with one GoName - and a comment that
+// cannot be copied into Go source verbatim. Each case is generated and built on its own, so that
+// one does not hide another (or anything else).
+func genCollisionProbes(c *Ctx) {
+	dir := filepath.Join(os.TempDir(), fmt.Sprintf("verif-gen-coll-%d", os.Getpid()))
+	_ = os.RemoveAll(dir)
+	defer os.RemoveAll(dir)
+	one := []genMethod{{name: "Do"}, {name: "Watch", ss: true}}
+	cases := []struct {
+		key, what string
+		f         genFile
+	}{
+		{"gen-collide-param-import", "messages in a Go package named opts (go_package \"gen.test/msgs/opts\")", genFile{pkg: "coll.a", goPackage: "gen.test/msgs/opts", localMsgs: true, services: []genService{{name: "Gateway", methods: one}}}},
+		{"gen-collide-param-import", "messages in a Go package named baseURL", genFile{pkg: "coll.b", goPackage: "gen.test/msgs/baseURL", localMsgs: true, services: []genService{{name: "Gateway", methods: one}}}},
+		{"gen-collide-service-param", "a service named Http", genFile{pkg: "coll.c", goPackage: "example.com/gen/coll/c;collc", services: []genService{{name: "Http", methods: one}}}},
+		{"gen-collide-service-pair", "services Foo and NewFoo in one file", genFile{pkg: "coll.d", goPackage: "example.com/gen/coll/d;colld", services: []genService{{name: "Foo", methods: one}, {name: "NewFoo", methods: one}}}},
+		{"gen-collide-service-pair", "services Foo and UnimplementedFoo in one file", genFile{pkg: "coll.e", goPackage: "example.com/gen/coll/e;colle", services: []genService{{name: "Foo", methods: one}, {name: "UnimplementedFoo", methods: one}}}},
+		{"gen-collide-method-goname", "rpcs GetThing and get_thing in one service", genFile{pkg: "coll.f", goPackage: "example.com/gen/coll/f;collf", services: []genService{{name: "Things", methods: []genMethod{{name: "GetThing"}, {name: "get_thing"}}}}}},
+		{"gen-comment-bom", "a leading comment containing U+FEFF", genFile{pkg: "coll.g", goPackage: "example.com/gen/coll/g;collg", comments: true, comment: " Do \ufeff does things.\n", services: []genService{{name: "Svc", methods: one}}}},
+	}
+	gomod := "module gen.test\n\ngo 1.18\n\nrequire (\n\tgithub.com/bufbuild/connect-go v0.0.0\n\tgoogle.golang.org/protobuf v1.28.0\n)\n\nreplace github.com/bufbuild/connect-go => " + repoDir() + "\n"
+	_ = os.MkdirAll(dir, 0o755)
+	_ = os.WriteFile(filepath.Join(dir, "go.mod"), []byte(gomod), 0o644)
+	if sum, err := os.ReadFile(filepath.Join(repoDir(), "go.sum")); err == nil {
+		_ = os.WriteFile(filepath.Join(dir, "go.sum"), sum, 0o644)
+	}
+	for _, last := range []string{"opts", "baseURL"} {
+		d := filepath.Join(dir, "msgs", last)
+		_ = os.MkdirAll(d, 0o755)
+		_ = os.WriteFile(filepath.Join(d, "types.go"), []byte("package "+last+"\n\ntype Req struct{}\ntype Res struct{}\n"), 0o644)
+	}
+	for i, tc := range cases {
+		desc := "valid file with " + tc.what
+		c.Begin(desc)
+		c.Count("gen-collision-probe")
+		res, err := runPlugin(tc.f.request())
+		if err != nil {
+			c.Fail(tc.key, desc, err.Error(), "the generator failed on a valid descriptor")
+			continue
+		}
+		if res.Error != nil {
+			c.Fail(tc.key, desc, res.GetError(), "the generator reported an error on a valid descriptor")
+			continue
+		}
+		if len(res.File) != 1 {
+			c.Fail(tc.key, desc, fmt.Sprint(len(res.File)), "expected exactly one generated file")
+			continue
+		}
+		pkgDir := filepath.Join(dir, fmt.Sprintf("c%02d", i))
+		_ = os.MkdirAll(pkgDir, 0o755)
+		_ = os.WriteFile(filepath.Join(pkgDir, "gen.connect.go"), []byte(res.File[0].GetContent()), 0o644)
+		bctx, bcancel := context.WithTimeout(context.Background(), 120*time.Second)
+		cmd := exec.CommandContext(bctx, "go", "build", fmt.Sprintf("./c%02d/", i))
+		cmd.Dir = dir
+		cmd.Env = append(os.Environ(), "GOFLAGS=-mod=mod", "GOPROXY=off", "GOSUMDB=off", "GOTOOLCHAIN=local")
+		out, berr := cmd.CombinedOutput()
+		bcancel()
+		if berr != nil {
+			text := strings.ReplaceAll(string(out), "\n", " | ")
+			if len(text) > 400 {
+				text = text[:400]
+			}
+			c.Fail(tc.key, desc, text, "the generated code does not type-check")
+		}
+	}
 }
 
 // genMultiFileProbe: one request naming several files - a file with only messages before the
